@@ -49,6 +49,9 @@ type Case struct {
 	// enforcement (sqlite://dev?mode=memory, as in the docs) and writes it to a file, `migrate apply
 	// --tx-mode <Migrate>` executes the file later on the populated `_fk=1` database.
 	Migrate string `json:"migrate,omitempty"`
+	// ExtraSQL is executed on the populated database before the plan (objects the model does not
+	// describe, e.g. a view over a table — SQLite then refuses the final rename of a table rebuild).
+	ExtraSQL []string `json:"extra_sql,omitempty"`
 }
 
 // Outcome is what one execution showed.
@@ -340,6 +343,16 @@ func setup(ctx context.Context, path string, cs Case) string {
 	if err := sqlm.PopulateFlex(path, p.A, p.Rows, cs.Flex); err != nil {
 		return "populate: " + err.Error()
 	}
+	if len(cs.ExtraSQL) > 0 {
+		db, err := sqlm.OpenDBNoFK(path)
+		if err != nil {
+			return err.Error()
+		}
+		defer db.Close()
+		if err := sqlm.ExecAll(db, cs.ExtraSQL); err != nil {
+			return "extra-sql: " + err.Error()
+		}
+	}
 	return ""
 }
 
@@ -577,6 +590,14 @@ func runPair(ctx context.Context, atlas, dir string, cs Case) (o Outcome) {
 		// a failing plan must leave everything unchanged (schema, rows, indexes) — when it ran in a
 		// transaction; `--tx-mode none` promises no atomicity, so no demand is made there
 		if cs.Tx == "none" {
+			// no atomicity is promised, but rows must not be destroyed by the failure handling: every
+			// row of a table is still in that table or in its half-finished copy new_<t>
+			for tn, bt := range before.Tables {
+				have := len(after.Tables[tn].Rows) + len(after.Tables["new_"+tn].Rows)
+				if _, isCopy := before.Tables["new_"+tn]; !isCopy && have < len(bt.Rows) {
+					o.atom("failed-plan-destroyed-rows", "failed", map[string]any{"error": o.Applied.Err, "table": tn, "before": len(bt.Rows), "left": have})
+				}
+			}
 			return
 		}
 		if same, why := before.Equal(after); !same {
@@ -603,7 +624,7 @@ func (m *monitor) keyFor(ctx context.Context, dir string, cs Case, atom string) 
 			return false
 		}
 		b, _ := json.Marshal(p)
-		mk := atom + "\x00" + fmt.Sprint(cs.CLI, cs.Pre != nil) + cs.Tx + cs.Flex + cs.Migrate + string(b)
+		mk := atom + "\x00" + fmt.Sprint(cs.CLI, cs.Pre != nil) + cs.Tx + cs.Flex + cs.Migrate + fmt.Sprint(len(cs.ExtraSQL)) + string(b)
 		if v, ok := m.memo.Load(mk); ok {
 			return v.(bool)
 		}
@@ -627,6 +648,10 @@ func (m *monitor) keyFor(ctx context.Context, dir string, cs Case, atom string) 
 	}
 	if cs.Pre != nil {
 		f = append(f, "two-step-history")
+		sort.Strings(f)
+	}
+	if len(cs.ExtraSQL) > 0 {
+		f = append(f, "view-over-table")
 		sort.Strings(f)
 	}
 	if cs.Migrate != "" {
@@ -675,7 +700,7 @@ func (m *monitor) evaluate(ctx context.Context, dir string, cs Case) Outcome {
 		return o
 	}
 	safe, _ := sqlm.DataSafe(cs.A, cs.B)
-	if cs.Flex == "all" || cs.Flex == "nullkey" || cs.Src == "new-prefix" || cs.Src == "wr-violating" {
+	if cs.Flex == "all" || cs.Flex == "nullkey" || cs.Src == "new-prefix" || cs.Src == "wr-violating" || cs.Src == "view" {
 		// mismatching storage classes may legitimately be refused (STRICT); a table called new_<t>
 		// makes the unpatched planner's temporary name collide: refusal is the expected outcome
 		safe = false
@@ -940,6 +965,8 @@ func workload(c *rt.Ctx) []Case {
 	fixed = append(append(append(fixed, genToPlainCases(pool, modes)...), dropKCases(modes)...), exoticNameCases(modes)...)
 	// conversion to WITHOUT ROWID of tables holding rows the new definition rejects
 	fixed = append(fixed, wrViolatingCases(pool, modes)...)
+	fixed = append(fixed, rowidKeyCases(modes)...)
+	fixed = append(fixed, viewCases(modes)...)
 	for _, cs := range fixed {
 		add(cs)
 	}
@@ -1470,6 +1497,90 @@ func wrViolatingCases(pool []sqlm.PoolEntry, modes []string) []Case {
 					break
 				}
 			}
+		}
+	}
+	return out
+}
+
+// rowidKeyCases: (a) tables whose rowid is implicit (no key, text key, composite key) get a single
+// INTEGER PRIMARY KEY on an existing integer column whose values differ from the rowids; (b) tables with
+// columns declared with the non-SQLite type name STRING (NUMERIC affinity: numbers stay numbers) are
+// rebuilt for an unrelated reason.
+func rowidKeyCases(modes []string) []Case {
+	n := func(name, typ string) sqlm.Col { return sqlm.Col{Name: name, Type: typ, Null: true} }
+	nn := func(name, typ string) sqlm.Col { return sqlm.Col{Name: name, Type: typ} }
+	S := func(t sqlm.Table) sqlm.Schema { return sqlm.Schema{Tables: []sqlm.Table{t}} }
+	var out []Case
+	k := 0
+	add := func(name, edit string, a, b sqlm.Table) {
+		if S(a).Validate() != nil || S(b).Validate() != nil {
+			panic("c05 rowidKeyCases: invalid " + name)
+		}
+		for r := 0; r < 2; r++ {
+			out = append(out, Case{Pair: sqlm.Pair{A: S(a), B: S(b), Mode: modes[k%len(modes)]}, Name: "rowid-key:" + name, Src: "rowid-key", Edits: []string{edit}})
+			k++
+		}
+	}
+	cols := []sqlm.Col{nn("name", "text"), nn("acct", "integer"), n("v", "real"), nn("branch", "integer")}
+	none := sqlm.Table{Name: "rk", Cols: cols}
+	textKey := sqlm.Table{Name: "rk", Cols: cols, PK: []string{"name"}}
+	comp := sqlm.Table{Name: "rk", Cols: cols, PK: []string{"branch", "acct"}}
+	intKey := sqlm.Table{Name: "rk", Cols: cols, PK: []string{"acct"}}
+	intKeyIdx := intKey.Clone()
+	intKeyIdx.Idx = []sqlm.Idx{{Name: "rk_v", Parts: []sqlm.Part{{Col: "v"}}}}
+	add("no key -> integer key", "pk.add", none, intKey)
+	add("text key -> integer key", "pk.switch", textKey, intKey)
+	add("composite key -> integer key", "pk.shrink", comp, intKey)
+	add("no key -> integer key + index", "pk.add", none, intKeyIdx)
+	add("integer key -> no key", "pk.drop", intKey, none)
+	add("integer key -> text key", "pk.switch", intKey, textKey)
+	// STRING columns
+	st := sqlm.Table{Name: "orm", Cols: []sqlm.Col{nn("id", "integer"), n("amount", "string"), n("code", "string"), n("t", "text")}, PK: []string{"id"}}
+	stCk := st.Clone()
+	stCk.Checks = []sqlm.Check{{Name: "orm_idck", Expr: "id > 0", Refs: []string{"id"}}}
+	stWr := st.Clone()
+	stWr.WithoutRowID = true
+	stDrop := st.Clone()
+	stDrop.Cols = stDrop.Cols[:3]
+	stAdd := st.Clone()
+	stAdd.Cols = append(stAdd.Cols, n("extra", "string"))
+	add("string columns: add check", "check.add.named", st, stCk)
+	add("string columns: without rowid", "table.without-rowid.toggle", st, stWr)
+	add("string columns: drop column", "col.drop", st, stDrop)
+	add("string columns: add column in place", "col.add.null", st, stAdd)
+	return out
+}
+
+// viewCases: a view refers to a table that is rebuilt — SQLite (>= 3.26) refuses the final rename
+// ("error in view …: no such table"), i.e. the plan fails AFTER the old table was dropped. In a
+// transaction everything is rolled back; without one (tx none) the rows must at least survive in the
+// half-finished copy.
+func viewCases(modes []string) []Case {
+	n := func(name, typ string) sqlm.Col { return sqlm.Col{Name: name, Type: typ, Null: true} }
+	a := sqlm.Schema{Tables: []sqlm.Table{
+		{Name: "vt", Cols: []sqlm.Col{{Name: "id", Type: "integer"}, n("k", "text"), n("amount", "real")}, PK: []string{"id"}, Idx: []sqlm.Idx{{Name: "vt_k", Parts: []sqlm.Part{{Col: "k"}}}}},
+		{Name: "other", Cols: []sqlm.Col{{Name: "id", Type: "integer"}, n("v", "text")}, PK: []string{"id"}},
+	}}
+	var out []Case
+	k := 0
+	for v := 0; v < 3; v++ {
+		b := a.Clone()
+		t := &b.Tables[0]
+		edit := "check.add.named"
+		switch v {
+		case 0:
+			t.Checks = []sqlm.Check{{Name: "vt_idck", Expr: "id > 0", Refs: []string{"id"}}}
+		case 1:
+			edit = "col.drop"
+			t.Cols = t.Cols[:2]
+		default:
+			edit = "table.without-rowid.toggle"
+			t.WithoutRowID = true
+		}
+		for _, tx := range []string{"none", ""} {
+			out = append(out, Case{Pair: sqlm.Pair{A: a, B: b, Mode: modes[k%len(modes)]}, Tx: tx, ExtraSQL: []string{"CREATE VIEW vt_view AS SELECT id, k FROM vt WHERE id > 0"},
+				Name: fmt.Sprintf("view:%s tx=%q", edit, tx), Src: "view", Edits: []string{edit}})
+			k++
 		}
 	}
 	return out
